@@ -33,6 +33,8 @@ def cval(v):
         return "(VTuple [%s])" % ";".join(cval(x) for x in v)
     if type(v).__name__ == "Script" and type(v).__module__ == "btc_hd_wallet.script":
         return '(VObj "Script" [%s])' % cval(v.cmds)
+    if type(v).__name__ == "PrivateKey" and type(v).__module__ == "btc_hd_wallet.keys":
+        return '(VObj "PrivateKey" [%s; VNone])' % cval(v.k)          # K (a python-ecdsa object) is never read by the translated methods
     if type(v).__name__ == "Bip32Path" and type(v).__module__ == "btc_hd_wallet.wallet_utils":
         return '(VObj "Bip32Path" [%s])' % ";".join(cval(getattr(v, f)) for f in PATH_FIELDS)
     raise TypeError("value outside MiniPy: %r" % (v,))
@@ -57,6 +59,8 @@ def jval(v):
         return {"tuple": [jval(x) for x in v]}
     if type(v).__name__ == "Script":
         return {"script": jval(v.cmds)}
+    if type(v).__name__ == "PrivateKey":
+        return {"privkey": bytes(v.k).hex()}
     if type(v).__name__ == "Bip32Path":
         return {"bip32path": [jval(getattr(v, f)) for f in PATH_FIELDS]}
     raise TypeError(v)
@@ -79,6 +83,9 @@ def unj(j):
         if "script" in j:
             from btc_hd_wallet.script import Script
             return Script(unj(j["script"]))
+        if "privkey" in j:
+            from btc_hd_wallet.keys import PrivateKey
+            return PrivateKey(bytes.fromhex(j["privkey"]))
         if "bip32path" in j:
             from btc_hd_wallet.wallet_utils import Bip32Path
             return Bip32Path(*[unj(x) for x in j["bip32path"]])
@@ -314,6 +321,29 @@ def gen_args(rng, qual, tier):
         out += [(v,) for v in (0, 1, 2 ** 31 - 1, 2 ** 31, 2 ** 31 + 1, 2 ** 32, -1, -2 ** 31)]
     elif qual == "wallet_utils.Bip32Path.is_private":
         out += [(v,) for v in ("m", "M", "", "mm", "x", None, 0)]
+    elif qual in ("script.p2pkh_script", "script.p2sh_script", "script.p2wpkh_script", "script.p2wsh_script"):
+        for L in (0, 1, 19, 20, 21, 32, 33, 75, 76):
+            out.append((rb(L),))
+        out += [(rb(20),) for _ in range(n // 4)] + [(5,), (None,), ("ab",), ([1, 2],)]
+    elif qual in ("keys.PrivateKey.__bytes__", "keys.PrivateKey.wif"):
+        from btc_hd_wallet.keys import PrivateKey
+        NN = 0xFFFFFFFFFFFFFFFFFFFFFFFFFFFFFFFEBAAEDCE6AF48A03BBFD25E8CD0364141
+        ks = [1, 2, NN - 1, 2 ** 255, 2 ** 248 - 1, 2 ** 240, 255, rng.randrange(1, 2 ** 200)] + [rng.randrange(1, NN) for _ in range(max(4, n // 4))]
+        for k in ks:
+            key = PrivateKey(k.to_bytes(32, "big"))
+            if qual.endswith("wif"):
+                for c in (True, False):
+                    for t in (True, False):
+                        out.append((key, c, t))
+            else:
+                out.append((key,))
+        if qual.endswith("wif"):
+            key = PrivateKey((7).to_bytes(32, "big"))
+            out += [(key, 1, 0), (key, None, None), (key, "x", ""), (key, 0, 2)]
+    elif qual == "script.Script.__init__":
+        out += [(None,), ([],), ([1, rb(20), 2],), ([rb(3)],), ((1, 2),), (5,), ("x",), ([None],)]
+        for _ in range(n // 4):
+            out.append(([rng.choice([rng.randrange(0, 256), rb(rng.randrange(0, 40))]) for _ in range(rng.randrange(0, 6))],))
     elif qual in ("script.Script.raw_serialize", "script.Script.serialize"):
         from btc_hd_wallet.script import Script
         for L in (0, 1, 2, 74, 75, 76, 77, 254, 255, 256, 257, 519, 520, 521, 600):
